@@ -37,7 +37,8 @@ NSHARDS = {'quick': 16, 'thorough': 16}
 def required_cells(tier):
     return (['outcome:' + k for k in gm.OUTCOMES] + ['cmd:all', 'cmd:list', 'cmd:named', 'cmd:named-disabled',
             'style:google', 'style:freeform', 'style:auto', 'verbose:0', 'verbose:1', 'verbose:2', 'verbose:3',
-            'cli:exit0', 'cli:exit1', 'cli:list', 'mix:only-skipped', 'mix:last-fails', 'mix:disabled+failing'])
+            'cli:exit0', 'cli:exit1', 'cli:list', 'mix:only-skipped', 'mix:last-fails', 'mix:disabled+failing',
+            'printed-failed-list:empty', 'printed-failed-list:one', 'printed-failed-list:several'])
 
 
 def read_marks(path):
@@ -64,6 +65,40 @@ def parse_summary_line(text):
             n, t = part.split(' ', 1)
             out[t] = int(n)
     return out
+
+
+def printed_failed_list(text):
+    """the doctests named in the '=== Failed tests ===' section of a printed report, or None when the report has no
+    final summary line (nothing was printed at this verbosity)"""
+    lines = text.splitlines()
+    if not any(ln.startswith('=== ') and ' in ' in ln and ln.rstrip().endswith('seconds ===') for ln in lines):
+        return None
+    out = []
+    inside = False
+    for ln in lines:
+        if ln.strip() == '=== Failed tests ===':
+            inside = True
+            continue
+        if inside:
+            if ln.startswith('==='):
+                break
+            parts = ln.split()
+            if ln.startswith('python -m xdoctest ') and len(parts) >= 5:
+                out.append(parts[-1])
+    return sorted(out)
+
+
+def check_printed_failed(ctx, bad, text, expected, what):
+    got = printed_failed_list(text)
+    if got is None:
+        return True
+    ctx.event('printed_failed_lists_checked')
+    if got != sorted(expected):
+        bad('printed-failed-list', "%s: the printed '=== Failed tests ===' section names %r, the doctests that failed are %r" % (
+            what, got, sorted(expected)))
+        return False
+    ctx.cell('printed-failed-list:%s' % ('empty' if not expected else 'one' if len(expected) == 1 else 'several'))
+    return True
 
 
 def check_module(ctx, idx, seed, cli=False):
@@ -138,6 +173,9 @@ def check_module(ctx, idx, seed, cli=False):
             if sl is None or got_sl != exp_sl:
                 bad('summary-line', 'final summary line says %r, expected %r' % (sl, exp_sl))
                 ok = False
+            elif not check_printed_failed(ctx, bad, buf.getvalue(), [t['ident'] for t in enabled if t['outcome'] == 'failed'],
+                                          "command 'all' (verbose=%d, %d doctests run)" % (verbose, len(enabled))):
+                ok = False
         if ok:
             ctx.cell('cmd:all')
         # ------------------------------------------------------------ named
@@ -147,17 +185,25 @@ def check_module(ctx, idx, seed, cli=False):
             t = rng.choice([x for x in om.tests if x['outcome'] == 'disabled'])
         if os.path.exists(markfile):
             os.unlink(markfile)
+        nbuf = io.StringIO()
+        nverb = rng.choice([0, 1, 3])
         try:
-            with contextlib.redirect_stdout(io.StringIO()), contextlib.redirect_stderr(io.StringIO()):
-                rs2 = runner.doctest_module(path, t['ident'], argv=[''], verbose=rng.choice([0, 3]), style=style)
+            with contextlib.redirect_stdout(nbuf), contextlib.redirect_stderr(io.StringIO()):
+                rs2 = runner.doctest_module(path, t['ident'], argv=[''], verbose=nverb, style=style)
         except BaseException as ex:
             bad('run-raised', 'doctest_module(%s) raised %r' % (t['ident'], ex))
             return
         marks2 = read_marks(markfile)
         exp2 = [t['id']] if t['marks'] else []
+        # a force-disabled doctest run by name has the outcome of its body
+        named_fails = t['outcome'] == 'failed' or (t['kind'] == 'disabled')
         if rs2.get('n_total') != 1 or marks2 != exp2:
             bad('named-run', "naming %s (%s) ran %r doctest(s) and executed ids %r, expected exactly that one (%r)" % (
                 t['ident'], t['kind'], rs2.get('n_total'), marks2, exp2))
+            ok = False
+        elif not check_printed_failed(
+                ctx, bad, nbuf.getvalue(), [t['ident']] if named_fails else [],
+                'naming %s (%s), verbose=%d' % (t['ident'], t['kind'], nverb)):
             ok = False
         else:
             ctx.cell('cmd:named-disabled' if t['outcome'] == 'disabled' else 'cmd:named')
@@ -194,6 +240,9 @@ def check_module(ctx, idx, seed, cli=False):
                 ok = False
             elif enabled and got_sl != exp_sl:
                 bad('summary-line', 'CLI summary line says %r, expected %r\n%s' % (sl, exp_sl, p.stdout[-400:]))
+                ok = False
+            elif not check_printed_failed(ctx, bad, p.stdout, [x['ident'] for x in enabled if x['outcome'] == 'failed'],
+                                          "CLI 'all' (%d doctests run)" % len(enabled)):
                 ok = False
             else:
                 ctx.cell('cli:exit%d' % p.returncode)
